@@ -119,7 +119,7 @@ CLAIMS = {
              "most with 'has columns'); _length is stored only at construction and returned by __len__; in-place writes "
              "assign single positions of list(old storage) and promotion rebuilds from all elements; row selections map one "
              "key over all columns; Row snapshots the table's current column tuples unfiltered and every accessor indexes "
-             "them with the row index; >>, <<, .T have the expected shape. Cell equality as values is not decided.",
+             "them with the row index; >>, <<, .T have the expected shape. Cell equality as values is not decided. For a str / bytes operand Vector.__lshift__ appends one cell on every reachable path, and table << x / x << table reach no result for a string or a mapping (three-valued evaluation per kind of operand).",
         note="A structural necessary condition is decided, not the run-time values.",
         technique="term-domain abstract interpretation (length guards as path conditions at every column store, row-view terms) + CFG dominance + who-may-store",
         design="2/C02"),
@@ -133,7 +133,7 @@ CLAIMS = {
              "loop appends or raises; row selections map the same key over all columns; by-name lookup is exact-name-first; the "
              "comparison forms of the single-name and the multi-name branch (column / position / name abstracted) are the same set; "
              "table masks are length-checked by a raise in their own branch; Table comparisons pair column-wise only with a 2-D "
-             "operand and keep a None entry's row False. A table without rows compared with a sequence keeps the table form; the empty list certainly reaches no refusal (vector of length 0 and 3, table of length 0: three-valued evaluation of every raise's path condition under key = []).",
+             "operand and keep a None entry's row False. A table without rows compared with a sequence keeps the table form; the empty list certainly reaches no refusal (vector of length 0 and 3, table of length 0: three-valued evaluation of every raise's path condition under key = []). The same evaluation for the untyped empty vector Vector([]) and for tables with rows: what every column accepts as the empty selection the table accepts too.",
         note="Slice arithmetic (typeutils.slice_length) is numeric and not decided; value equality with list slicing is "
              "delegated to tuple.__getitem__.",
         technique="construction-site matchers + CFG reachability + flag-sensitive must-pass-through + R-FALSY lint + term-domain abstract interpretation of the multi-name selection (search-idiom terms)",
@@ -160,7 +160,7 @@ CLAIMS = {
              "(shared with C03); Table.__setitem__ resolves columns first and only delegates to column writes; with several target "
              "columns the whole assignment is REHEARSED on Table(<copies of the target columns>) with the same row spec and value "
              "before the first store (all-or-nothing), Vector keys / values are snapshotted first, an untyped empty vector key "
-             "reaches no raise (the final raise's path condition is evaluated for that key), Row.__setitem__ only raises. The value of a table assignment is judged per KIND (vector, list, tuple, one-shot iterator): the sequence written item by item holds copies of its vectors; a whole-value store is feasible for a vector and for any non-list sequence; every item of a list of target columns becomes a target or raises (CFG must-pass); the empty list key reaches no refusal on a vector of 3 (three-valued evaluation).",
+             "reaches no raise (the final raise's path condition is evaluated for that key), Row.__setitem__ only raises. The value of a table assignment is judged per KIND (vector, list, tuple, one-shot iterator): the sequence written item by item holds copies of its vectors; a whole-value store is feasible for a vector and for any non-list sequence; every item of a list of target columns becomes a target or raises (CFG must-pass); the empty list key reaches no refusal on a vector of 3 (three-valued evaluation). A one-shot iterator value never reaches len(); a mapping value reaches no cell store; a number whose class is iterable (IntFlag) is one cell; several target columns take any sequence of columns (evaluated per kind of value and per assumed number of targets).",
         note="Equality with list assignment as values (range/slice arithmetic, typeutils.slice_length) is numeric and not decided.",
         technique="CFG reachability between mutation events and may-raise events + effect summaries + finite abstract interpretation",
         design="2/C08"),
@@ -179,7 +179,7 @@ CLAIMS = {
              "insertion-ordered items never sorted or passed through a set; key columns first; per built-in aggregate the wiring "
              "parameter <-> loop <-> function facts <-> suffix and facts == textbook spec; every aggregate function (and apply, "
              "None included) is called once per group on the values gathered in row order; Vector reductions are fact-equal; "
-             "length guards, exact-name resolution of columns given by name, determinism, purity.",
+             "length guards, exact-name resolution of columns given by name, determinism, purity. A key keeps its own stored name (first occurrence) and all key names are reserved before a synthetic one is chosen; _resolve_column refuses a two-dimensional vector as ONE column.",
         note="Numeric results and equality/hash behaviour of exotic keys are run-time properties and not decided.",
         technique="term-domain abstract interpretation -> semantic group-by model (partition key, first-sight index discipline, outputs classified by parameter, reducer provenance of every group value) + aggregator fact tuples vs spec + sibling comparison",
         design="2/C12"),
@@ -188,7 +188,7 @@ CLAIMS = {
              "records row i's key in the same iteration; compute_group_values maps each group key to fn(values in row order), "
              "fresh per call; expand_to_rows returns group_map[row_keys[i]] for i in range(nrows); every output column is the "
              "expansion of its own column's group values; key columns are list(col), first; the six aggregators, the output "
-             "naming and uniquify are fact-/alpha-equal to aggregate's; apply, guards, purity.",
+             "naming and uniquify are fact-/alpha-equal to aggregate's; apply, guards, purity. Key names as for aggregate (C12): stored names kept, reserved first.",
         note="Value equality with an actual aggregate + join-back is not decided.",
         technique="term-domain abstract interpretation -> semantic window model (per-row key memo, group map, row expansion) + sibling (aggregate vs window) fact comparison",
         design="2/C13"),
@@ -244,7 +244,7 @@ CLAIMS = {
              "reaching definitions / call sites (x[-0:] would be everything); max()/min()/x[0] over possibly empty sequences are "
              "guarded; the footer reads len(pv)/pv.shape/pv._dtype and a dtype list computed over ALL columns, homogeneity is "
              "decided over all columns; the preview is head k + ellipsis + tail k iff len > 2k with exactly one halving of the "
-             "row budget on each path (global default and per-table override); headers show stored names; repr is pure.",
+             "row budget on each path (global default and per-table override); headers show stored names; repr is pure. The row limit is converted with operator.index() when it is set (a setting that is not an integer cannot reach a slice bound).",
         note="Totality over arbitrary user objects whose __str__/__eq__ raise, alignment and exact line counts are not decided.",
         technique="guard/dominance analysis + interprocedural positivity of slice bounds + definite assignment with correlated branch outcomes + term-domain evaluation of footer inputs (dtype token per situation) + effect summaries",
         design="2/C20"),
